@@ -340,6 +340,10 @@ class STAR:
         for key, val in self._agg.to_dict().items():
             if key not in ('function', 'class'):
                 out[key] = val
+        # as given: the aggregator resolves a string to a function
+        out['unscored_value'] = votelib.persist.serialize_value(
+            self._runoff_torank_conv.unscored_value
+        )
         return out
 
     def evaluate(self,
